@@ -43,6 +43,17 @@ CHECKS.update({
    note=VFS_NOTE),
 })
 
+CHECKS.update({
+ "C08": dict(engine="vfs", level=EX, design="§7 C08",
+   technique="exhaustive enumeration of a finite content/size family and of all histories/crash points on the real compressing sink; zlib + Python gzip as independent decoders",
+   text="A finite family (boundary sizes x content generators, all records <= 2 symbols over a 12-symbol alphabet) plus every .gz met in the bounded history exploration and at every crash point inside compression is decoded by two independent gzip implementations; header, CRC-32, ISIZE, payload and 'original removed only after the .gz is complete' are checked. Says nothing about contents outside the family.",
+   note=VFS_NOTE),
+ "C10": dict(engine="vfs", level=FE, design="§5.3, §7 C10",
+   technique="exhaustive crash-point and single-fault enumeration: one forked execution of the real sink per mutating system call of every rotating write (interposed libc), oracle evaluated at the crash instant, followed by restarts under a destructive-call monitor",
+   text="For every configuration and bounded prefix history, every mutating system call of a rotating write is a crash point and every rename/link/unlink/.gz-create a single-failure point; at each, every byte that had reached a log file must be in an intact file, and a restarted sink (same day, then next day) may only delete by retention, never truncate or reuse a name.",
+   note=VFS_NOTE + " Process death only (no power-loss model); single faults; Qt's internal copy+remove fallback of QFile::rename accepted."),
+})
+
 PENDING = {}
 
 def main():
